@@ -1,6 +1,12 @@
 package treesim
 
 import (
+	"crypto/sha256"
+	"encoding/base32"
+
+	"github.com/ipfs/go-cid"
+	"github.com/multiformats/go-multibase"
+
 	"fmt"
 	"sort"
 	"strings"
@@ -89,7 +95,11 @@ func (w *world) buildScript(extra []*simlib.Account) *aclScript {
 				cur[a.Name] = pWriter
 			}
 		case pReader:
-			if s.Flip("remove", 0.4) {
+			if s.Flip("twice", 0.2) {
+				// one record that touches the account twice: writer first, reader in the end
+				w.space.ChangePermTwice(a, list.AclPermissionsWriter, list.AclPermissionsReader)
+				w.r.Probe("acl-record-changes-account-twice")
+			} else if s.Flip("remove", 0.4) {
 				w.space.Remove(a)
 				cur[a.Name] = pNone
 			} else {
@@ -97,7 +107,11 @@ func (w *world) buildScript(extra []*simlib.Account) *aclScript {
 				cur[a.Name] = pWriter
 			}
 		case pWriter:
-			if s.Flip("remove", 0.4) {
+			if s.Flip("twice", 0.2) {
+				w.space.ChangePermTwice(a, list.AclPermissionsWriter, list.AclPermissionsReader)
+				cur[a.Name] = pReader
+				w.r.Probe("acl-record-changes-account-twice")
+			} else if s.Flip("remove", 0.4) {
 				w.space.Remove(a)
 				cur[a.Name] = pNone
 			} else {
@@ -167,7 +181,7 @@ func (w *world) citedIndex(id string) (int, bool) {
 // admissible is the reference predicate: conjuncts 1-4 of the property ("in principle"); aclKnown
 // (>= 0) adds conjunct 5: the cited record is among the first aclKnown+1 records the replica holds.
 func (w *world) admissible(id string, raw []byte, aclKnown int) (bool, string) {
-	if !cidutil.VerifyCid(raw, id) {
+	if refCid(raw) != id {
 		return false, "id is not the content hash of the bytes"
 	}
 	d, err := decodeChange(&treechangeproto.RawTreeChangeWithId{RawChange: raw, Id: id})
@@ -202,6 +216,15 @@ func (w *world) admissible(id string, raw []byte, aclKnown int) (bool, string) {
 		return false, fmt.Sprintf("cites record #%d but the replica only holds records up to #%d", k, aclKnown)
 	}
 	return true, ""
+}
+
+// refCid: the one accepted spelling of the content id of some bytes, computed here from the digest (not by the
+// code under test): CIDv1, dag-cbor codec, sha2-256, lower-case base32.
+func refCid(raw []byte) string {
+	sum := sha256.Sum256(raw)
+	// multihash: code 0x12 (sha2-256), length 32; cid: version 1, codec 0x71 (dag-cbor)
+	b := append([]byte{0x01, 0x71, 0x12, 0x20}, sum[:]...)
+	return "b" + strings.ToLower(base32.StdEncoding.WithPadding(base32.NoPadding).EncodeToString(b))
 }
 
 // consider registers a byzantine (id, bytes) pair in the ground truth if it is admissible in principle.
@@ -366,7 +389,22 @@ func (w *world) mutateChange(orig *treechangeproto.RawTreeChangeWithId) (*treech
 		}
 		return &treechangeproto.RawTreeChangeWithId{RawChange: rawb, Id: id}
 	}
-	switch k := s.Choose("mutation", 11); k {
+	switch k := s.Choose("mutation", 12); k {
+	case 11:
+		// the same bytes under another spelling of the same digest: another multibase, another codec
+		c, err := cid.Decode(orig.Id)
+		if err != nil {
+			return orig, "undecodable id"
+		}
+		id := strings.ToUpper(orig.Id)
+		switch s.Choose("alias-form", 3) {
+		case 1:
+			id = cid.NewCidV1(cid.Raw, c.Hash()).String()
+		case 2:
+			id, err = c.StringOfBase(multibase.Base58BTC)
+			must(err)
+		}
+		return &treechangeproto.RawTreeChangeWithId{RawChange: orig.RawChange, Id: id}, "bytes kept, id re-spelled (other multibase or codec, same digest)"
 	case 0:
 		return rewrap(flip(d.rtc.Payload, "pos"), d.rtc.Signature, false), "payload byte flipped, id kept"
 	case 1:
